@@ -55,6 +55,9 @@ type plan struct {
 	Schedules []schedule `json:"schedules"`
 	Faults    [][]string `json:"faults"`
 	Stress    int        `json:"stress"`
+	// Ns: when a plan re-runs entries of an earlier plan, the index each entry had there (the
+	// per-run random choices are seeded by it, so the re-run makes the same choices)
+	Ns []int `json:"ns"`
 }
 
 type stats struct {
@@ -446,8 +449,9 @@ func runSchedule(tw *lineWriter, st *stats, n int, s schedule, step time.Duratio
 	if !res.Finished {
 		c.Uninstall()
 		tw.Emit(tracefmt.Rec{"ev": "hung", "what": "a call never returned"})
-		_ = r.conn.Close()
-		_ = r.far.Close()
+		// the stuck calls may hold the connection's close-once: do not wait for these closes
+		go func() { _ = r.conn.Close() }()
+		go func() { _ = r.far.Close() }()
 		return
 	}
 	// the controller is in free-run mode now; it stays installed (recording only) until
@@ -546,7 +550,11 @@ func TestChild(t *testing.T) {
 	step := time.Duration(tracefmt.EnvInt("VERIF_STEP_MS", 4)) * time.Millisecond
 	total := len(p.Schedules) + len(p.Faults) + p.Stress
 	for n := from; n < total; n++ {
-		rng := rand.New(rand.NewSource(tracefmt.Seed()*100003 + int64(n)))
+		sn := n
+		if n < len(p.Ns) {
+			sn = p.Ns[n]
+		}
+		rng := rand.New(rand.NewSource(tracefmt.Seed()*100003 + int64(sn)))
 		switch {
 		case n < len(p.Schedules):
 			runSchedule(tw, &st, n, p.Schedules[n], step, rng)
@@ -611,7 +619,7 @@ func TestC44(t *testing.T) {
 	from := 0
 	for from < total && agg.Children < 80 {
 		agg.Children++
-		ctx, cancel := context.WithTimeout(context.Background(), 20*time.Minute)
+		ctx, cancel := context.WithTimeout(context.Background(), 8*time.Minute)
 		cmd := exec.CommandContext(ctx, os.Args[0], "-test.run=^TestChild$", "-test.count=1", "-test.timeout=25m")
 		cmd.Env = append(os.Environ(), "C44_CHILD=1", "C44_PLAN="+planPath, "C44_TRACE="+trace,
 			fmt.Sprintf("C44_FROM=%d", from))
